@@ -123,6 +123,12 @@ var c07Templates = []string{
 func TestVerif_C07(t *testing.T) {
 	defer vfStats.dump()
 	vfStats.Property = "C07"
+	if vfOnlySub("static") {
+		vfRunStatic(t, "C07", 0)
+	}
+	if t.Failed() {
+		return
+	}
 	if vfOnlySub("enum") {
 		vfRun(t, vfSub[c07Case]{Prop: "C07", Name: "enum", Check: c07Check})
 		if !vfReplayMode() && !t.Failed() {
